@@ -49,7 +49,7 @@ func (p *Parser) parseSet(parser *Parser) (Node, error) {
 	}
 
 	// Expect the block end token
-	if parser.tokenIndex >= len(parser.tokens) || parser.tokens[parser.tokenIndex].Type != TOKEN_BLOCK_END {
+	if parser.tokenIndex >= len(parser.tokens) || !isBlockEndToken(parser.tokens[parser.tokenIndex].Type) {
 		return nil, fmt.Errorf("expected block end token after set expression at line %d", setLine)
 	}
 	parser.tokenIndex++
